@@ -158,7 +158,9 @@ func (s *Session) dump() string {
 	for i, h := range s.handles {
 		hs[i] = numOf(num, h)
 	}
-	return "H[" + strings.Join(hs, ",") + "] " + strings.Join(parts, " | ")
+	// "W1": the model evaluates its well-formedness invariant on its own heap at every dump; the implementation
+	// side has nothing to evaluate and prints the expected verdict
+	return "W1 H[" + strings.Join(hs, ",") + "] " + strings.Join(parts, " | ")
 }
 
 func errCode(err error) string {
